@@ -26,16 +26,24 @@ META = {
     'level_text': 'Theorems for every program of state/cleanup functions (arbitrary functions of the history), every '
                   'sequence of cycle/start/stop and every placement of concurrent requests at the reads of next_task: '
                   'cycle_calls_bounded (measure and positional), cycle_never_raises, init_flag_exact, cleanup_exactly_once, '
-                  'cleanup_not_interrupted, stop_makes_inactive (incl.: a stop request to the module that finds a state '
-                  'function active has posted its stop when it returns), last_start_wins (incl.: a start request to the '
-                  'module has posted its start when it returns) are fully proved from one coupling invariant between the '
-                  'machine and the observer; busy_until_finished is fully proved from a second invariant (engaged => busy '
-                  'status, not engaged => status = declared final/stopped status) for requests that are atomic with respect '
-                  'to the transitions of the machine - which the repaired code guarantees by one lock (fix 5cfb218) - and '
-                  'refuted for a start_machine pre-empted by a transition (the code before the repair).  The model is tied '
-                  'to lib/statemachine.py and states.py by an exhaustive + random correspondence run on the real classes, '
-                  'and the Lean monitors judge every implementation history, also with start_machine/stop_machine '
-                  'pre-empted between any two of their lines.',
+                  'cleanup_not_interrupted (incl.: a state handed over by a state or cleanup function - on every path: '
+                  'chaining, stop, restart, exception, non-callable, too many chained states - is entered next, and the '
+                  'machine changes its state only when called for; third invariant, Lemmas/StateMachineFollow), '
+                  'stop_makes_inactive (incl.: a stop request to the module that finds a state function active has posted '
+                  'its stop when it returns), last_start_wins (incl.: a start request to the module has posted its start '
+                  'when it returns) are fully proved from coupling invariants between the machine and the observer; '
+                  'busy_until_finished is fully proved WITHOUT assumption about the status codes the author declares '
+                  '(invariant: engaged and no status declared for this engagement that is not busy => busy status; not '
+                  'engaged => status = declared final/stopped status; what earlier engagements declared never counts), '
+                  'busy_until_finished_strict is its corollary for modules declaring busy codes only; both for requests '
+                  'that are atomic with respect to the transitions of the machine - which the repaired code guarantees by '
+                  'one lock (fix d233056) - and refuted for a start_machine pre-empted by a transition (the code before the '
+                  'repair).  status_independent_of_history: get_status through the statusMap cache returns what the '
+                  'lookup without cache returns, after any sequence of earlier lookups.  The model is tied to '
+                  'lib/statemachine.py and states.py by an exhaustive + catalogue (interruptions x cleanups) + multi-run + '
+                  'random correspondence run on the real classes, get_status sequences on one instance (also of a derived '
+                  'class: MRO inheritance) and Drivable.isBusy over all codes; the Lean monitors judge every implementation '
+                  'history, also with start_machine/stop_machine pre-empted between any two of their lines.',
     'level_note': 'Trusted: Lean kernel + axioms propext/Classical.choice/Quot.sound; that the lock makes '
                   'start_machine/stop_machine/final_status atomic with respect to StateMachine._new_state is not a theorem '
                   'but searched (line-level pre-emption of the request thread, the cycle thread waiting for the lock; '
@@ -49,10 +57,13 @@ META = {
     'modelled_not_verified': [
         'time (now, delta), log texts, fast-poll switching, poller triggering',
         'Parameter/announceUpdate machinery behind read_status (the value returned by read_status is observed)',
+        'HasStates.on_cleanup / on_error / on_restart / on_stop (default cleanup): scripted in the driver, tied by correspondence only',
     ],
     'assumptions': ['all_status_changes = True (default)',
-                    'status codes attached to state functions and status overrides of start_machine are busy codes, '
-                    'BUSY < ERROR (hypotheses BusyRules / BusyProg / BusyOps of busy_until_finished)'],
+                    'BUSY < ERROR (hypothesis of busy_until_finished; a fact of the generated constants)',
+                    'where the author declares a status that is not busy (status= override of the start request in force, '
+                    '@status_code of its start state, of the state active when it was issued, or of a state entered since) '
+                    'the busy clause demands nothing for that engagement (Obs.lax)'],
 }
 
 NSTATES = 5
@@ -1075,6 +1086,12 @@ def run(ctx):
                 'behaviours of each call from {next, retry, finish, non-callable, raise} resp. {None, state, raise}), maxloops=2, '
                 'bare machine and HasStates module; random: op sequences up to depth 40 with requests from inside the '
                 'functions, final_status, requests injected at the reads of next_task (same thread or a real second thread); '
+                'catalogue: every interruption (stop, restart, exception, non-callable, too many chained states, error '
+                'inside a cleanup sequence) x every kind of cleanup (none, sequence of one or two states, raise, Finish, Retry) '
+                'x bare/module x maxloops 1,2,3,10; runs: 2-4 runs one after the other on ONE instance (start states with / '
+                'without attached status, busy or not, overrides busy or not; ended by Finish, error, chain limit, stop, restart; '
+                'cleanup sequences); glue: get_status lookup sequences on one instance (Mod and a derived class), isBusy for '
+                'all codes; '
                 'preempted: start_machine/stop_machine stopped between two of their lines (judge only). '
                 'non-trivial = a cleanup function ran and (a start was taken or a stop interrupted)')
     thorough = ctx.tier == 'thorough'
